@@ -24,8 +24,8 @@ from common import rng, frac, close
 TIMEOUT = 120
 CUES = ['a', 'b', 'c', 'd', 'ä']
 OUTS = ['x', 'y', 'z', 'ö']
-# duplicate policies for method='numpy' / dict_wh (remove_duplicates None / False)
-METHOD_POLICIES = ['error', 'keep']
+# duplicate policies for method='numpy' / dict_wh (remove_duplicates None / False / True)
+METHOD_POLICIES = ['error', 'keep', 'dedup']
 
 
 def judge(t, wi, ni, wm, nm):
